@@ -211,10 +211,11 @@ BinaryWhereDeclared(E, v, hint) ==
 Prop_BinaryOnlyInBinaryFields(E, v) == BinaryWhereDeclared(E, v, AnyHint)
 
 (* ------------------------------------------------------------------ domain of KF-C05-01 *)
-\* v holds a plain dict with a marker key at a position the decoder reaches with an Any hint
+\* v holds a plain dict with a marker key at a position DECLARED Any (a field declared Dict[...] -- or a
+\* bare `dict`, which the decoder cannot tell from a primitive -- holds user-keyed data: not in the domain)
 RECURSIVE MarkerDictUnderAny(_, _, _)
 MarkerDictUnderAny(E, v, hint) ==
-    LET h == Unwrap(hint) IN
+    LET h == GenOf(hint) IN
     CASE v.t = "dict" ->
             \/ (h.k # "dict" /\ Keys(v.kv) \cap Markers # {})
             \/ \E i \in DOMAIN v.kv : MarkerDictUnderAny(E, v.kv[i][2], IF h.k = "dict" THEN h.of ELSE AnyHint)
